@@ -31,7 +31,7 @@ Proof. exact wf_types_complete_proof. Qed.
 (* finding F23 (repaired): the witness is rejected by the model of the current code *)
 Theorem wf_rejects_alias_cycle_modes :
   exists l, wf_obs f23_text = "REJECT:def-mode-mismatch" ^^ l.
-Proof. eexists. exact F23_rejected. Qed.
+Proof. exact F23_rejected_class. Qed.
 
 Theorem wf_hypotheses_satisfiable : WellFormed ex_env.
 Proof. exact ex_env_wellformed. Qed.
